@@ -18,7 +18,9 @@ CHECKS['C02'] = dict(
         'disassembler and the parser report against that table.',
    design_ref='5.2',
    note='Trusted: TLC, CommunityModules, g++; TeakDecodeTable.tla (transcribed once from the pinned decoder.h, frozen). '
-        'The execution clause (second word consumed, never executed) is covered by the instruction-level traces of C01.',
+        'Execution clause: every first word that takes a second word is executed by the real interpreter from random states '
+        '(pc in all four 64K banks and across their boundaries) and validated in full against CoreCycle; one-word '
+        'instructions are covered by the sweep of C01.',
    technique='TLA+ spec + TLC exhaustive enumeration + TLC validation of total decode dumps from the real code')
 CHECKS['C01'] = dict(
    text='The reference semantics is an explicit TLA+ specification of the whole instruction set (332 handler overloads, decode, '
@@ -75,7 +77,9 @@ CHECKS['C16'] = dict(
    text='Exhaustive TLC model checking of the transmit FIFO (Btdmp.tla with ghost input/output history; capacity 4 quick / 6 '
         'thorough, all periods, every history of send/flush/enable/period/tick/skip within the horizon) decides FIFO order, '
         'one frame per period, flags, interrupt timing and Skip(k) = Tick^k; random histories on real Btdmp objects in the Teakra '
-        'wiring (direct, MMIO and CoreTiming paths, capacity 16) are validated by TLC against the same operators.',
+        'wiring (direct, MMIO and CoreTiming paths, capacity 16) are validated by TLC against the same operators, and '
+        'guest programs feeding both ports on a full Teakra are validated against the composed System.tla (frames, interrupts, flags '
+        'at every slice; idle programs go through Btdmp::Skip while the specification only ticks).',
    design_ref='5.16',
    note='Trusted: TLC, CommunityModules, g++; Btdmp.tla as a reading of the property. Full width (capacity 16, 16-bit words, '
         'period 4096) is covered by trace validation, exhaustive only at the scaled constants.',
@@ -102,7 +106,9 @@ CHECKS['C14'] = dict(
    text='Apbp.tla/ApbpSys.tla model both mailbox directions as wired by Teakra and the MMIO registers 0x0C0-0x0D8; TLC checks the '
         'handshake invariants and interrupt action properties exhaustively (2 channels x 2 data values x 2 semaphore bits, both '
         'directions); every transition of the one-direction state graphs is replayed on a real Teakra (spec -> impl) and random '
-        'histories through facade + MMIO are validated by TLC (impl -> spec).',
+        'histories through facade + MMIO are validated by TLC (impl -> spec); guest programs that poll, echo, mask and '
+        'acknowledge while the host calls the API between slices are validated against the composed System.tla (mailbox state, '
+        'status registers, ICU request and latches, handler entry, every host callback in order).',
    design_ref='5.14',
    note='Trusted: TLC, CommunityModules, g++. 3 channels and 16 semaphore bits are covered by trace validation, exhaustive at the scaled constants.',
    technique='TLA+ spec + TLC exhaustive model checking + state-graph edge replay + TLC trace validation')
@@ -112,8 +118,9 @@ CHECKS['C06'] = dict(
         'programs run on a real Teakra in one piece, in random slices and single-stepped are all validated against System.tla, whose '
         'only way to consume Run(n) is n Cycle steps, with the complete observation compared after every slice.',
    design_ref='5.6',
-   note='Trusted: TLC, CommunityModules, g++, the frozen TLA+ instruction semantics. Audio port and mailbox are not part of the system '
-        'programs yet (their own fast-forward is decided by C16); host events at slice boundaries are limited to the program load.',
+   note='Trusted: TLC, CommunityModules, g++, the frozen TLA+ instruction semantics. The design model covers two timers (all modes) and, '
+        'in a second configuration, the audio port in every queue/phase/period state; System.tla composes core, ICU, timers, MIU, both '
+        'audio ports, both mailbox blocks and host API calls at slice boundaries; DMA/AHBM registers are outside it (C13).',
    technique='TLA+ spec + TLC exhaustive model checking of the run-loop design + TLC trace validation with silent cycle steps')
 CHECKS['C07'] = dict(
    text='All interleavings of trigger/acknowledge/route/mask/enable operations and instruction boundaries are explored by TLC on a model '
@@ -129,7 +136,10 @@ CHECKS['C19'] = dict(
         'handler, ICU mutex across on_interrupt, atomic interrupt latches, re-entrant callbacks on either thread); TLC explores all '
         'interleavings for value order, no loss, eventual observation and interrupt delivery (liveness under fairness), deadlock freedom '
         'and a lockset invariant; two-thread executions of the real code under ThreadSanitizer are recorded per thread and TLC searches '
-        'for an interleaving the model explains; a TSan report or a stuck run has no action and is a violation.',
+        'for an interleaving the model explains; a TSan report or a stuck run has no action and is a violation. Millions of tiny '
+        'two-thread episodes (hammer_rec) are deduplicated into outcome classes, each of which must have an explaining interleaving '
+        '(reaches atomicity windows of a few instructions); the interrupt-delivery clause is additionally validated sequentially '
+        'in the composed System.tla.',
    design_ref='5.19',
    category='model_checking',
    note='Data-race freedom in the C++ memory-model sense is observed by ThreadSanitizer on the recorded executions, not decided by the '
@@ -166,7 +176,7 @@ CHECKS['C17'] = dict(
    text='The complete observation vector of the machine is the modelled state; in the states fresh / fresh+Reset / history+Reset the '
         'specification is in the single state FreshReset (a constant for everything but MMIO read-back). Recorded executions on '
         'polluted heaps are validated by TLC, which computes the differing observation groups; the same history replayed after Reset '
-        'and on a fresh instance must coincide; two processes must produce identical streams; a component-level reset model is checked '
+        'and on a fresh instance must coincide (including the hidden AHBM burst FIFOs and the external-memory traffic); two processes must produce identical streams; a component-level reset model is checked '
         'exhaustively (what Reset covers vs what C17 demands).',
    design_ref='5.17',
    note='Trusted: TLC, CommunityModules, g++. Histories are sampled. One known finding (MMIO backing storage survives Reset) is listed '
@@ -176,7 +186,9 @@ CHECKS['C18'] = dict(
    text='TLC checks the address-formation cases on the specification (data, MMIO and loop-frame indices always in range; the program-side '
         'addresses that leave the array do so only under named causes). Every first word is executed from states that include the ends '
         'of the program space and non-zero program pages with every raw access observed (out-of-range ones vetoed), and TLC validates '
-        'each execution in full: the specification predicts exactly which executions go out of range. Fuzz runs of a full Teakra under '
+        'each execution in full: the specification predicts exactly which executions go out of range; the loop-stack handlers get many '
+        'states per encoding (full stack included) and guest-programmed address translation (MMIO base, page mode, x/y/z pages incl. '
+        'non-existent ones, host accessors) is validated on a full Teakra against System.tla. Fuzz runs of a full Teakra under '
         'ASan+UBSan must end by Return/Unimplemented/AssertAbort (TLC); Faults have no action.',
    design_ref='5.18',
    category='model_checking',
